@@ -3,7 +3,7 @@ import torch
 from hypothesis import strategies as st
 
 from vf import gen, refmodel as R
-from vf.common import Sub, require
+from vf.common import Sub, require, PropertyViolation
 
 PROPERTY = "C01"
 RULE = ("Generated: state type in {positive, complex}, num_visible 1..5 x num_hidden 1..6 drawn independently, every "
@@ -24,6 +24,8 @@ def cases(draw, types=("positive", "complex"), nrange=(1, 5), nhrange=(1, 6)):
     case["row"] = draw(st.integers(0, 2 ** n - 1))
     if case["type"] == "complex":
         case["ph2"] = gen.rescale_case({"am": draw(gen.net_params(n, case["nh"]))}, 300.0)["am"]
+    # second parameter set written IN PLACE into the same object after the first evaluation (history: evaluate, update, evaluate)
+    case["am2"] = gen.rescale_case({"am": draw(gen.net_params(n, case["nh"]))}, 300.0)["am"]
     return case
 
 
@@ -44,6 +46,19 @@ def close(a, b, rtol, atol=0.0):
 
 def check(case):
     state = gen.build_state(case)
+    r = check_round(case, state)
+    if case.get("am2"):
+        # same object, parameters updated in place (as an optimizer or load() does): everything must hold again
+        gen.set_net(state.rbm_am, case["am2"])
+        c2 = dict(case, am=case["am2"])
+        try:
+            check_round(c2, state)
+        except PropertyViolation as v:
+            raise PropertyViolation("after-inplace-update:" + v.bucket, "after an in-place parameter update of the same object: " + v.message, v.detail)
+    return r
+
+
+def check_round(case, state):
     n = case["n"]
     am, ph = gen.ref_nets(case)
     V = R.bits(n)
